@@ -283,11 +283,15 @@ def plain_dec(ty, buf, count, flen=0):
 
 def bss_enc(raw, k):
     """raw: concatenated K-byte values -> K streams, stream j = byte j of every value"""
-    n = len(raw) // k
-    return b"".join(bytes(raw[i * k + j] for i in range(n)) for j in range(k))
+    raw = bytes(raw)
+    return b"".join(raw[j::k] for j in range(k))
 
 
 def bss_dec(buf, k, n):
+    """value i = (stream 0 [i], stream 1 [i], ...), stream j = bytes j*n .. (j+1)*n-1"""
     if len(buf) < k * n:
         raise SpecError("truncated")
-    return bytes(buf[j * n + i] for i in range(n) for j in range(k))
+    out = bytearray(k * n)
+    for j in range(k):
+        out[j::k] = buf[j * n:(j + 1) * n]
+    return bytes(out)
